@@ -242,6 +242,7 @@ def run_property(pid, tier="quick", seed=0):
     for (v, k) in known_hits:
         print(f"KNOWN-FINDING: property={pid} {v['obligation']} {k['what']}")
     replay_paths = []
+    twin_cache = {}
     for v in real_violations:
         body = {"property": pid, "obligation": v["obligation"], "engine": v["engine"], "repo": repo_state(),
                 "how_to_replay": f"./check {pid} --replay <this file>"}
@@ -254,7 +255,17 @@ def run_property(pid, tier="quick", seed=0):
             body["kani_twin"] = twin
             tw = None
             if twin:
-                tw = kx.run_twin(twin)
+                # the twins of a refuted obligation are run once per run (obligations may share them) and only to obtain
+                # concrete values: the refutation itself stands on the Verus failure
+                # (at most the first three twins: each failing twin is re-run alone for concrete playback, minutes apiece)
+                hs_ = twin["harness"] if isinstance(twin["harness"], list) else [twin["harness"]]
+                twin = {"crate": twin["crate"], "harness": hs_[:3]}
+                tkey = json.dumps(twin, sort_keys=True)
+                if os.environ.get("VERIF_ENGINES") == "vx":
+                    twin_cache[tkey] = None
+                elif tkey not in twin_cache:
+                    twin_cache[tkey] = kx.run_twin(twin)
+                tw = twin_cache[tkey]
                 body["twin_result"] = {k: v for k, v in (tw or {}).items() if k != "tail"} if tw else None
             if not (tw and tw.get("concrete_test")):
                 suffix = " no-failing-input-found"
